@@ -378,6 +378,35 @@ func (w *World) oracleHandover(bi *BlockInfo) {
 	w.oracleBtcHashes(bi)
 }
 
+// oracleQueues: C06, "never dropped, duplicated or invented" judged at rest: after every block what
+// is owed and not yet handed over is exactly what sits in the modules' hand-over queues.
+func (w *World) oracleQueues(bi *BlockInfo) {
+	o, cur, b := w.M.Owed, w.M.Cur, bi.B
+	w.Stats.OracleEvals["C06"]++
+	have := map[string]int{
+		"reward":  len(cur.Locking.EthTxQueue.Rewards),
+		"unlock":  len(cur.Locking.EthTxQueue.Unlocks),
+		"deposit": len(cur.Bitcoin.EthTxQueue.Deposits),
+		"paid":    len(cur.Bitcoin.EthTxQueue.PaidWithdrawals),
+		"refund":  len(cur.Bitcoin.EthTxQueue.RejectedWithdrawals),
+	}
+	for _, kind := range []string{"reward", "unlock", "deposit", "paid", "refund"} {
+		owed := len(o.Q[kind])
+		if owed == have[kind] {
+			continue
+		}
+		key := fmt.Sprintf("queue-mismatch:%s:%d:%d", kind, owed, have[kind])
+		if w.seenOnce(key) {
+			continue
+		}
+		if owed > have[kind] {
+			w.violate("C06", "owed-item-not-queued", "dropped-"+kind, "height %d: %d %s items are owed to the execution layer but the hand-over queue holds %d (next owed: %s, %s)", b.Height, owed, kind, have[kind], o.Q[kind][0].Key, o.Q[kind][0].Detail)
+		} else {
+			w.violate("C06", "queued-item-not-owed", "invented-"+kind, "height %d: the %s hand-over queue holds %d items but only %d are owed", b.Height, kind, have[kind], owed)
+		}
+	}
+}
+
 func unlockKey(u *lockingtypes.Unlock) string {
 	return fmt.Sprintf("%d:%x:%x:%s", u.Id, common.BytesToAddress(u.Recipient), common.BytesToAddress(u.Token), u.Amount.BigInt())
 }
